@@ -149,6 +149,10 @@ func c02Run(c *c02Case) {
 
 func main() {
 	a := vh.ParseArgs()
+	if os.Getenv("VERIF_C13PLUS") != "" {
+		plusMain(a.Out, a.N)
+		return
+	}
 	var cases []c02Case
 	if a.Replay != "" {
 		if err := vh.ReadReplay(a.Replay, &cases); err != nil {
